@@ -359,11 +359,15 @@ type kmsKey struct {
 	secrets [][]byte
 }
 
-var kmsImportCounter byte
+// number of keys generated for import in the CURRENT case (reset by kmsRun): the key material must not depend on what
+// the worker process ran before (a byte counter shared by all cases wrapped to a seed from which no key can be made)
+var kmsImportCounter int
 
 func kmsImportable(kt string) (interface{}, bool) {
 	kmsImportCounter++
-	seed := bytes.Repeat([]byte{kmsImportCounter}, 64)
+	h1 := sha256.Sum256([]byte(fmt.Sprintf("verif-import-key-%d-a", kmsImportCounter)))
+	h2 := sha256.Sum256([]byte(fmt.Sprintf("verif-import-key-%d-b", kmsImportCounter)))
+	seed := append(h1[:], h2[:]...)
 	switch kt {
 	case "ed25519":
 		return ed25519.NewKeyFromSeed(seed[:32]), true
@@ -387,6 +391,7 @@ func kmsRun(input string, c06 bool) string {
 		crash, _ = strconv.Atoi(strings.TrimPrefix(parts[2], "crash="))
 	}
 	lockOutputs = nil
+	kmsImportCounter = 0
 	masterKey := bytes.Repeat([]byte{0x5a}, 32)
 	for i := range masterKey {
 		masterKey[i] ^= byte(i * 7)
@@ -464,6 +469,12 @@ func kmsRun(input string, c06 bool) string {
 				break
 			}
 			key := keys[i]
+			if (f[0] == "rotate" || f[0] == "export") && !key.live {
+				// the id of a rotated-away key is gone - or re-used by a later named import, which is then another key's
+				// business: rotating or exporting it through the old entry makes no sense
+				o = "skip"
+				break
+			}
 			switch f[0] {
 			case "rotate":
 				nid, _, e := k.Rotate(kmsKeyTypes[strings.Split(key.kt, "/")[0]], key.id)
